@@ -26,8 +26,9 @@ Inductive outcome : Type :=
 | PAmbiguous       (* default_submod_path: MultipleCandidates                          *)
 | PLexFatal.       (* fatal lexer error (unterminated string, raw string or block comment): rustc raises
                       FatalError (unwinding) inside new_parser_from_file.  parse_file_as_module runs it under
-                      catch_unwind; for the root, ParserBuilder::build (parser.rs:47-60) runs OUTSIDE
-                      catch_unwind, nothing up to main() catches it: the process ends with status 101 *)
+                      catch_unwind; for the root, ParserBuilder::build (parser.rs:47-63) now does too and returns
+                      Err(ParserError::ParseError): an ordinary parse error.  Before the repair build ran it
+                      OUTSIDE catch_unwind and the process ended with status 101: see [run_main_pre]. *)
 
 (* what formatting + emitting this file does: flags the formatter adds to the report, the emitter's has_diff,
    whether emit_formatted_file returns Err (io error) *)
@@ -165,7 +166,7 @@ Definition format_project (c : cfg) (stdin : bool) (t : mtree) : list Ev * resul
              match snd rl with Some f => ROk f | None => RErr end)
         end
     | PRecoverable | PMissing | PAmbiguous => ([ParseRootErr], ROk parsing_flag)   (* report.add_parsing_error(); Ok(report) *)
-    | PLexFatal => ([ParseRootErr], ROk parsing_flag)    (* the diagnostic is printed; the call does NOT return: see [unwinds] *)
+    | PLexFatal => ([ParseRootErr], ROk parsing_flag)    (* build: Err(..) => Err(ParserError::ParseError) *)
     | PFatal | PPanic => ([ParsePanic], ROk parsing_flag)
     end.
 
@@ -190,30 +191,18 @@ Inductive cfg_load : Type :=
 
 Record root : Type := MkRoot { r_exists : bool; r_is_dir : bool; r_load : cfg_load; r_tree : mtree }.
 
-(* the root's parser cannot be created because of a fatal lexer error, and the code reaches that point:
-   FatalError unwinds through format_project, Session::format and main *)
-Definition unwinds (c : cfg) (t : mtree) : bool :=
-  c_version_ok c && negb (c_disable_all c) && c_ignore_ok c &&
-  negb (c_skip_children c && n_ignored (t_info t)) &&
-  match n_outcome (t_info t) with PLexFatal => true | _ => false end.
-
-(* per root its events and flags; Some code = the loop was left early and the process ends with that status
-   (1: `?` on load_config; 101: unwinding FatalError) *)
-Fixpoint run_roots (scfg : cfg) (rs : list root) : list (list Ev * flags) * option N :=
+(* per root its events and flags; the boolean says that a `?` aborted the loop *)
+Fixpoint run_roots (scfg : cfg) (rs : list root) : list (list Ev * flags) * bool :=
   match rs with
-  | [] => ([], None)
+  | [] => ([], false)
   | r :: rs' =>
       if negb (r_exists r) || r_is_dir r then
         let rr := run_roots scfg rs' in (([BadPath], operational_flag) :: fst rr, snd rr)
       else
         match r_load r with
-        | LocalErr => ([([ConfigErr], flags_zero)], Some 1)
-        | UseSession =>
-            if unwinds scfg (r_tree r) then ([run_root scfg false (r_tree r)], Some 101)
-            else let rr := run_roots scfg rs' in (run_root scfg false (r_tree r) :: fst rr, snd rr)
-        | LocalOk c =>
-            if unwinds c (r_tree r) then ([run_root c false (r_tree r)], Some 101)
-            else let rr := run_roots scfg rs' in (run_root c false (r_tree r) :: fst rr, snd rr)
+        | LocalErr => ([([ConfigErr], flags_zero)], true)
+        | UseSession => let rr := run_roots scfg rs' in (run_root scfg false (r_tree r) :: fst rr, snd rr)
+        | LocalOk c => let rr := run_roots scfg rs' in (run_root c false (r_tree r) :: fst rr, snd rr)
         end
   end.
 
@@ -223,12 +212,52 @@ Definition run_main (global : option cfg) (check : bool) (rs : list root) : list
   | None => ([[ConfigErr]], 1)
   | Some scfg =>
       let rr := run_roots scfg rs in
+      (map fst (fst rr), if snd rr then 1 else exit_file (flags_sum (map snd (fst rr))) check)
+  end.
+
+(* format_string (main.rs:278-329): one input on standard input *)
+Definition run_stdin (c : cfg) (t : mtree) : list Ev * N :=
+  let r := run_root c true t in (fst r, exit_stdin (snd r)).
+
+(* ------------------------------------------------------------------ *)
+(* THE CODE BEFORE THE REPAIR of ParserBuilder::build (kept for the record; nothing above uses it).
+   The root's parser could not be created because of a fatal lexer error, and the code reached that point:
+   FatalError unwound through format_project, Session::format and main *)
+Definition unwinds (c : cfg) (t : mtree) : bool :=
+  c_version_ok c && negb (c_disable_all c) && c_ignore_ok c &&
+  negb (c_skip_children c && n_ignored (t_info t)) &&
+  match n_outcome (t_info t) with PLexFatal => true | _ => false end.
+
+(* Some code = the loop was left early and the process ended with that status
+   (1: `?` on load_config; 101: unwinding FatalError) *)
+Fixpoint run_roots_pre (scfg : cfg) (rs : list root) : list (list Ev * flags) * option N :=
+  match rs with
+  | [] => ([], None)
+  | r :: rs' =>
+      if negb (r_exists r) || r_is_dir r then
+        let rr := run_roots_pre scfg rs' in (([BadPath], operational_flag) :: fst rr, snd rr)
+      else
+        match r_load r with
+        | LocalErr => ([([ConfigErr], flags_zero)], Some 1)
+        | UseSession =>
+            if unwinds scfg (r_tree r) then ([run_root scfg false (r_tree r)], Some 101)
+            else let rr := run_roots_pre scfg rs' in (run_root scfg false (r_tree r) :: fst rr, snd rr)
+        | LocalOk c =>
+            if unwinds c (r_tree r) then ([run_root c false (r_tree r)], Some 101)
+            else let rr := run_roots_pre scfg rs' in (run_root c false (r_tree r) :: fst rr, snd rr)
+        end
+  end.
+
+Definition run_main_pre (global : option cfg) (check : bool) (rs : list root) : list (list Ev) * N :=
+  match global with
+  | None => ([[ConfigErr]], 1)
+  | Some scfg =>
+      let rr := run_roots_pre scfg rs in
       (map fst (fst rr),
        match snd rr with Some code => code | None => exit_file (flags_sum (map snd (fst rr))) check end)
   end.
 
-(* format_string (main.rs:278-329): one input on standard input; the same unwinding *)
-Definition run_stdin (c : cfg) (t : mtree) : list Ev * N :=
+Definition run_stdin_pre (c : cfg) (t : mtree) : list Ev * N :=
   let r := run_root c true t in
   (fst r, if unwinds c t then 101 else exit_stdin (snd r)).
 
